@@ -76,13 +76,15 @@ Proof.
   { intros H; injection H as <- <-. rewrite E1, E2, E3, E4, E5, E6. repeat split; reflexivity. }
   destruct (str_eqb (ttype t) s_text) eqn:E7.
   { intros H; injection H as <- <-. rewrite E1, E2, E3, E4, E5, E6, E7. repeat split; reflexivity. }
+  destruct (str_eqb (ttype t) s_tspecial) eqn:E7b.
+  { intros H; injection H as <- <-. rewrite E1, E2, E3, E4, E5, E6, E7, E7b. repeat split; reflexivity. }
   destruct (str_eqb (ttype t) s_html_block) eqn:E8.
-  { intros H; injection H as <- <-. rewrite E1, E2, E3, E4, E5, E6, E7, E8. repeat split; reflexivity. }
+  { intros H; injection H as <- <-. rewrite E1, E2, E3, E4, E5, E6, E7, E7b, E8. repeat split; reflexivity. }
   destruct (str_eqb (ttype t) s_html_inline) eqn:E9.
-  { intros H; injection H as <- <-. rewrite E1, E2, E3, E4, E5, E6, E7, E8, E9. repeat split; reflexivity. }
+  { intros H; injection H as <- <-. rewrite E1, E2, E3, E4, E5, E6, E7, E7b, E8, E9. repeat split; reflexivity. }
   destruct (str_eqb (ttype t) s_definition) eqn:E10.
-  { intros H; injection H as <- <-. rewrite E1, E2, E3, E4, E5, E6, E7, E8, E9, E10. repeat split; reflexivity. }
-  intros H; injection H as <- <-. rewrite E1, E2, E3, E4, E5, E6, E7, E8, E9, E10.
+  { intros H; injection H as <- <-. rewrite E1, E2, E3, E4, E5, E6, E7, E7b, E8, E9, E10. repeat split; reflexivity. }
+  intros H; injection H as <- <-. rewrite E1, E2, E3, E4, E5, E6, E7, E7b, E8, E9, E10.
   repeat split; try reflexivity. rewrite (render_token_neighbours o p p' _ n n' Hp Hn). reflexivity.
 Qed.
 
@@ -187,10 +189,16 @@ Definition chunk_ok (tags : list str) (c : chunk) : bool :=
 
 Definition not_html (t : token) : Prop :=
   str_eqb (ttype t) s_html_block = false /\ str_eqb (ttype t) s_html_inline = false.
-Definition ok_tok (tags : list str) (t : token) : Prop := In (ttag t) tags /\ not_html t.
+(* token types whose render rule never writes the tag: text, text_special, definition *)
+Definition silent_ty (ty : str) : bool := str_eqb ty s_text || str_eqb ty s_tspecial || str_eqb ty s_definition.
+(* a token that goes through a render rule: its tag is in the vocabulary (the empty tag is not in it:
+   no "<>" is ever written) or its rule does not use the tag; and it is not raw HTML *)
+Definition ok_tok (tags : list str) (t : token) : Prop := (In (ttag t) tags \/ silent_ty (ttype t) = true) /\ not_html t.
+(* a top-level token: as above, or of type inline (rendered through its children, its own tag unused) *)
+Definition ok_blk (tags : list str) (t : token) : Prop := ok_tok tags t \/ (str_eqb (ttype t) s_inline = true /\ not_html t).
 (* children are rendered for tokens of type inline only *)
 Definition ok_top (tags : list str) (t : token) : Prop :=
-  ok_tok tags t /\ (str_eqb (ttype t) s_inline = true -> forall ch, tchildren t = Some ch -> Forall (ok_tok tags) ch).
+  ok_blk tags t /\ (str_eqb (ttype t) s_inline = true -> forall ch, tchildren t = Some ch -> Forall (ok_tok tags) ch).
 
 Lemma fixed_ok tags s : mem_str s fixed_lits = true -> chunk_ok tags (CLit s) = true.
 Proof. intros H. cbn [chunk_ok]. rewrite H. reflexivity. Qed.
@@ -233,6 +241,8 @@ Lemma render_one_ok tags o p t n cs t' :
   render_one o p t n = Ok (cs, t') -> forallb (chunk_ok tags) cs = true.
 Proof.
   intros Hh [Htag [Hb Hi]]. unfold render_one.
+  assert (TG : silent_ty (ttype t) = false -> In (ttag t) tags).
+  { intros S0. destruct Htag as [I|S1]; [exact I | rewrite S0 in S1; discriminate S1]. }
   destruct (str_eqb (ttype t) s_code_inline).
   { intros H; inv_ok H. cbn [app forallb]. rewrite forallb_app, render_attrs_ok. reflexivity. }
   destruct (str_eqb (ttype t) s_code_block).
@@ -240,18 +250,20 @@ Proof.
   destruct (str_eqb (ttype t) s_fence).
   { destruct (render_fence o t) as [c|e|] eqn:F; cbn [bind]; intros H; try discriminate.
     inv_ok H. eapply render_fence_ok; eassumption. }
-  destruct (str_eqb (ttype t) s_image).
-  { intros H; inv_ok H. apply render_token_ok. exact Htag. }
+  destruct (str_eqb (ttype t) s_image) eqn:EIm.
+  { intros H; inv_ok H. apply render_token_ok. apply TG. apply str_eqb_eq in EIm. rewrite EIm. reflexivity. }
   destruct (str_eqb (ttype t) s_hardbreak).
   { intros H; inv_ok H. unfold br. destruct (o_xhtml o); reflexivity. }
   destruct (str_eqb (ttype t) s_softbreak).
   { intros H; inv_ok H. unfold br. destruct (o_breaks o), (o_xhtml o); reflexivity. }
-  destruct (str_eqb (ttype t) s_text).
+  destruct (str_eqb (ttype t) s_text) eqn:ET.
+  { intros H; inv_ok H. reflexivity. }
+  destruct (str_eqb (ttype t) s_tspecial) eqn:ES.
   { intros H; inv_ok H. reflexivity. }
   rewrite Hb, Hi.
-  destruct (str_eqb (ttype t) s_definition).
+  destruct (str_eqb (ttype t) s_definition) eqn:ED.
   { intros H; inv_ok H. reflexivity. }
-  intros H; inv_ok H. apply render_token_ok. exact Htag.
+  intros H; inv_ok H. apply render_token_ok. apply TG. unfold silent_ty. rewrite ET, ES, ED. reflexivity.
 Qed.
 
 Lemma render_inline_list_ok tags o : forall l p cs l',
@@ -290,7 +302,8 @@ Proof.
         inv_ok H. cbn [app]. eapply IH; eassumption.
     + destruct (render_one o p t (hd_error rest)) as [[c1 t1]|e|] eqn:R1; cbn in H; try discriminate.
       destruct (render_list o (Some t1) rest) as [[c2 r2]|e|] eqn:R2; cbn in H; try discriminate.
-      inv_ok H. rewrite forallb_app. rewrite (render_one_ok tags o p t _ c1 t1 Hh Ht R1).
+      assert (Ht' : ok_tok tags t) by (destruct Ht as [Ht|[Ht _]]; [exact Ht | rewrite EI in Ht; discriminate Ht]).
+      inv_ok H. rewrite forallb_app. rewrite (render_one_ok tags o p t _ c1 t1 Hh Ht' R1).
       rewrite (IH (Some t1) c2 r2 Hh Hr R2). reflexivity.
 Qed.
 
@@ -358,6 +371,7 @@ Proof.
   destruct (str_eqb (ttype t) s_softbreak).
   { intros A B; inv_ok A; inv_ok B. split; [reflexivity|]. cbn [o_breaks with_xhtml]. destruct (o_breaks o); reflexivity. }
   destruct (str_eqb (ttype t) s_text). { intros A B; inv_ok A; inv_ok B. split; reflexivity. }
+  destruct (str_eqb (ttype t) s_tspecial). { intros A B; inv_ok A; inv_ok B. split; reflexivity. }
   destruct (str_eqb (ttype t) s_html_block). { intros A B; inv_ok A; inv_ok B. split; reflexivity. }
   destruct (str_eqb (ttype t) s_html_inline). { intros A B; inv_ok A; inv_ok B. split; reflexivity. }
   destruct (str_eqb (ttype t) s_definition). { intros A B; inv_ok A; inv_ok B. split; reflexivity. }
